@@ -26,6 +26,8 @@ fn c05_optimised_and_plain_engines_agree() {
         "@@/banners/ok-but-this-exception-pattern-is-much-longer-than-the-urls", "@@/banners/ok",
         "/csp1$csp=script-src 'none'", "/csp1$csp=worker-src 'none'",
         "|https://a.io/xa|", "|https://a.io/xb|", "|https://a.io/xc|",
+        // right-anchored rules that share their index token; a pattern-less multi-domain rule in a bucket that has rules of its own
+        "/ads/a.gif|", "/ads/b.gif|", "/ads/c.gif|", "*$image,domain=foo.com|bar.com", "banner1$domain=foo.com", "banner2$domain=foo.com", "banner3$domain=bar.com",
         // exact-URL rules of equal length that differ in a one-letter token only (they share their bucket)
         "|https://example.com/ads/a.js|", "|https://example.com/ads/b.js|", "|https://example.com/ads/c.js|",
     ];
@@ -37,10 +39,11 @@ fn c05_optimised_and_plain_engines_agree() {
         "https://a.io/s", "https://a.io/sx", "https://b.io/t.gif", "https://b.io/t.gifx", "https://a.io/h", "https://a.io/hx", "https://b.io/h",
         "https://b.io/sep/s/", "https://b.io/sep/s", "https://b.io/wild/1/w", "https://b.io/wild/w", "https://b.io/csp1",
         "https://a.io/xa", "https://a.io/xb", "https://a.io/xc", "https://a.io/xd",
+        "https://x.io/ads/a.gif", "https://x.io/ads/b.gif", "https://x.io/ads/c.gif", "https://x.io/ads/d.gif", "https://x.io/pic.png", "https://x.io/banner1", "https://x.io/banner3",
         "https://example.com/ads/a.js", "https://example.com/ads/b.js", "https://example.com/ads/c.js", "https://example.com/ads/d.js", "https://example.com/ads/a.js?x",
     ] {
-        for t in ["image", "script", "document"] {
-            let req = Request::new(url, "https://news.example/", t).unwrap();
+        for (t, src) in [("image", "https://news.example/"), ("script", "https://news.example/"), ("document", "https://news.example/"), ("image", "https://foo.com/"), ("image", "https://bar.com/"), ("script", "https://foo.com/")] {
+            let req = Request::new(url, src, t).unwrap();
             let p = plain.check_network_request(&req);
             let o = optimised.check_network_request(&req);
             assert_eq!((p.matched, p.important, p.exception.is_some(), p.redirect, p.rewritten_url), (o.matched, o.important, o.exception.is_some(), o.redirect, o.rewritten_url),
